@@ -277,7 +277,7 @@ PROPS['C11'] = dict(lean=['Mkdb.Props.C11'], facts=STORE_FACTS, runs=[dict(cmd='
     assumptions=['keys arrive in ascending order per tree (engine: shared counter; replay: logged ids)'],
     trusted_base=['models Mkdb/Model/Tree.lean, Store.lean; Spec/TreeInv.lean (invariant), Spec/Shape.lean (executable checker on dumps)'])
 PROPS['C14'] = dict(lean=['Mkdb.Props.C14'], facts=STORE_FACTS, runs=[dict(cmd='db', proto='db', args=['c14'])],
-    sig_filter=r'db:(failed-statement-changed-table|failed-statement-applied-row-prefix|failed-create-left-table|invalid-statement-accepted|cache-full-statement-.*)', 
+    sig_filter=r'db:(failed-statement-changed-table|failed-statement-applied-row-prefix|failed-create-left-table|invalid-statement-accepted|cache-full-statement-.*|contents-differ:.*|schema-differs:.*|select-failed:.*|recovery-failed:.*|panic:.*|hang:.*|row-id:.*|row-ids-not-increasing:.*)', 
     claim='Proof (partial): about the heap model of storage/relation.go + engine/*.go, with "changes nothing" = SameData (every visible page, every dirty bit, '
           'the data file, the header on disk, the locating header fields; counters may advance, pages may be pulled into the cache) and the log untouched, hence also after '
           'a restart: C14_insert_first_row (unknown table, column-count mismatch, type mismatch, out-of-range integer, duplicate key), C14_insert_oversized_row, '
@@ -304,7 +304,7 @@ PROPS['C03'] = dict(lean=['Mkdb.Props.C03'], facts=STORE_FACTS, runs=[dict(cmd='
     assumptions=['a write(2) on the log may be torn at any byte; fsync makes earlier writes durable', 'the data file is not written while the statement runs (C13)'],
     trusted_base=['models Mkdb/Model/Wal.lean, Store.lean, Engine.lean; hooks verifPoint(wal.len|wal.body|wal.sync), VerifWalParseFile'])
 PROPS['C04'] = dict(lean=['Mkdb.Props.C04'], facts=STORE_FACTS, runs=[dict(cmd='db', proto='db', args=['c04'], timeout=3000)],
-    sig_filter=r'db:(fimage-.*)',
+    sig_filter=r'db:(fimage-.*|contents-differ:after-recovery|recovery-failed:.*|schema-differs:after-recovery|row-id:after-recovery|row-ids-not-increasing:after-recovery|select-failed:after-recovery|panic:.*|hang:.*)',
     claim='Proof (partial): C04_torn_flush_recovers - the data files a crash inside flushPages can leave are those in which every page is the cached page as of some earlier moment; for every log of page-local records, every such file and every flush history before it, replay reproduces the acknowledged state; C04_log_cut with C04_write_ahead_needed - the write-ahead rule (no page newer than the log) is sufficient and necessary. Not covered: flushes torn between the pages of a split or before the header write that persists the allocation frontier - there the implementation does lose data (KNOWN FINDING db:fimage-(loss|recovery-failed):*:alloc1, see KNOWN_FINDINGS.txt) - and a second crash inside the flush that ends recovery. The header counters, which the page-level theorem does not speak of, are covered for the row-id counter by C02_never_reuses_a_row_id (any torn flush), and judged on every recovered image (the counter against the largest row id in use: db:fimage-row-id-counter-behind, the defect repaired in fa35ced); statements probed after an image recovery include INSERTs. Tie: for flushes triggered explicitly, by CREATE TABLE and by shutdown, a hook copies data/ immediately before every page write and before the header write, in the page order the Go map iteration produced; each image is recovered by the real InitStorage in a child process and every table is compared with the spec of the acknowledged statements; the model reproduces each torn image from the observed write order and must recover to the same heap.',
     note='Trusted: Lean kernel (axioms propext, Classical.choice, Quot.sound only), the hand-written models, the harness and hooks, the OS file system behaving as a byte array per file with fsync making earlier writes durable. Theorems are about the models; the code is covered through the correspondence and the judge, which are bounded.',
     rule='8 (thorough 64) histories with 2-5 instrumented flushes each, one image per page write and per header write (10-40 images per flush). Non-trivial: an image with at least one but not all pages written; distinct by image operation text. Images are classified by flush kind and by whether pages were allocated since the last header write (alloc0/alloc1).'
